@@ -254,12 +254,12 @@ func init() {
 					for i := 0; i < 2; i++ {
 						np := q.Base.NumPending()
 						if ub := started(); np < 0 || np > ub {
-							h.viol("C17", "C17.reader-pending", fmt.Sprintf("a concurrent reader saw queue NumPending()=%d with %d submissions begun", np, ub))
+							h.viol("C17", "C17.reader-pending", readerMsg("queue", np, ub))
 						}
 					}
 					wp := w.Wk.NumPending()
 					if ub := started(); wp < 0 || wp > ub {
-						h.viol("C17", "C17.reader-pending", fmt.Sprintf("a concurrent reader saw worker NumPending()=%d with %d submissions begun", wp, ub))
+						h.viol("C17", "C17.reader-pending", readerMsg("worker", wp, ub))
 					}
 					if p := w.Wk.NumProcessing(); p < 0 || p > 1 {
 						h.viol("C17", "C17.reader-processing", fmt.Sprintf("a concurrent reader saw NumProcessing()=%d at limit 1", p))
@@ -285,7 +285,7 @@ func init() {
 			go func() {
 				for i := 0; i < 2; i++ {
 					if np := q.Base.NumPending(); np < 0 || np > 3 {
-						h.viol("C17", "C17.reader-pending", fmt.Sprintf("a concurrent reader saw queue NumPending()=%d with 3 submissions begun", np))
+						h.viol("C17", "C17.reader-pending", readerMsg("queue", np, 3))
 					}
 				}
 			}()
@@ -295,4 +295,11 @@ func init() {
 			h.End()
 		},
 	})
+}
+
+func readerMsg(what string, v, ub int) string {
+	if v < 0 {
+		return "a concurrent reader saw a negative " + what + " NumPending()"
+	}
+	return "a concurrent reader saw " + what + " NumPending() above the number of submissions begun"
 }
